@@ -525,8 +525,9 @@ thm("C01", ["C01"], ["C01_skinny128", "C01_skinny64"])
 thm("C03", ["C03", "C03M"], ["C03_skinny128", "C03_skinny64", "C03_tweaked128", "C03_tweaked64", "spec128_dec_enc", "spec128_enc_dec", "spec64_dec_enc", "spec64_enc_dec",
             "C03_mantis_spec", "C03_mantis_impl", "crypt_flip", "C02_swap_enc_is_dec"])
 thm("C04", ["C04"], ["C04_skinny128", "C04_skinny64"])
-thm("C05", ["C05", "C06"], ["C05_stream", "C05_init", "C05_involution", "C05_calls", "C05_C06_instances"])
-thm("C06", ["C06"], ["C06_ctr", "C06_step", "C06_init", "C05_C06_instances"])
+VEC_INC = ["C05_v128c_increment", "C05_v256c_increment", "C05_v64c_increment", "C05_vmc_increment"]
+thm("C05", ["C05", "C06", "C05V"], ["C05_stream", "C05_init", "C05_involution", "C05_calls", "C05_C06_instances"] + VEC_INC)
+thm("C06", ["C06", "C05V"], ["C06_ctr", "C06_step", "C06_init", "C05_C06_instances"] + VEC_INC)
 def search_c13(run, tier, rng):
     """a C13 theorem no longer checks: (1) the emulated-CPU matrix at full size against the real code;
     (2) the generated probe model against the architectural specification (covers XCR0, which cannot be emulated)"""
